@@ -62,7 +62,7 @@ Proof.
     destruct bl as [y|]; [apply comp_eqb_spec|]; reflexivity.
 Qed.
 
-Theorem f2_loop_exhausts (fb : flat) : frag2 fb = true -> enumerates fb -> fl_errors_fail fb = false ->
+Theorem f2_loop_exhausts (fb : flat) : frag2 fb = true -> fl_errors_fail fb = false ->
   forall (requested : nat) (draws res : list key),
   (forall k, In k draws -> In k (keys_of fb)) ->
   sample_loop key key_eqb (key_accepted fb) (length (keys_of fb)) requested draws [] [] = Some res ->
@@ -70,11 +70,11 @@ Theorem f2_loop_exhausts (fb : flat) : frag2 fb = true -> enumerates fb -> fl_er
   NoDup (map (cand_fseq fb) res) /\
   (forall s, In s (map (cand_fseq fb) res) <-> valid_b (code_sem fb) s = true).
 Proof.
-  intros HF Hex He requested draws res Hd Hrun Hreq.
-  destruct (f2_enumerates_memos fb HF Hex) as (m & lm & HM & Hen).
+  intros HF He requested draws res Hd Hrun Hreq.
+  destruct (f2_memos_total fb HF) as (m & lm & HM & Hen).
   destruct (loop_exhausts key key_eqb key_eqb_spec (key_accepted fb) (length (keys_of fb)) requested
               (keys_of fb) (f2_keys_nodup fb HF) eq_refl draws res Hd Hrun) as (Hnd & Hsub & _ & Hall).
-  destruct (f2_accepted_exact fb HF Hex He) as [Hnd' Hiff].
+  destruct (f2_accepted_exact fb HF He) as [Hnd' Hiff].
   assert (Hle : accepted_count key (key_accepted fb) (keys_of fb) <= requested).
   { unfold accepted_count.
     assert (G : forall l : list key, length (filter (key_accepted fb) l) <= length l).
@@ -105,7 +105,7 @@ Theorem f1_loop_exhausts (fb : flat) : frag1 fb = true -> fl_errors_fail fb = fa
 Proof.
   intros HF He requested draws res Hd Hrun Hreq.
   rewrite <- (map_ext _ _ (frag1_cand_fseq fb HF)).
-  exact (f2_loop_exhausts fb (frag1_frag2 fb HF) (f1_enumerates fb HF) He requested draws res Hd Hrun Hreq).
+  exact (f2_loop_exhausts fb (frag1_frag2 fb HF) He requested draws res Hd Hrun Hreq).
 Qed.
 
 Theorem f0_loop_exhausts (fb : flat) : frag0 fb = true -> fl_errors_fail fb = false ->
